@@ -410,6 +410,29 @@ pub fn run_lat(op: &str, a: &[Arg], st: &mut Stats) -> Option<Out> {
             Out::ok(format!("ok:{}", fmt_opt_bytes(&d)))
                 .with_oracle(delta == 0 || d.is_none(), "a ciphertext differing in one coefficient was accepted")
         }
+        ("tampernoise", [r1, r2, which, k, delta]) => {
+            // the ciphertext lives in the NTT domain: add the transform of the small element delta*X^k to one ring
+            // element, i.e. a modification in the direction of the noise, which leaves the extracted payload unchanged
+            let (r1, r2) = (bytes32(r1)?, bytes32(r2)?);
+            let (which, k) = (which.usize()?, k.usize()?);
+            let delta = delta.u64()? % P;
+            if which >= 5 || k >= 64 {
+                return None;
+            }
+            let (sk, pk) = kem::keygen(r1);
+            let (_, c) = kem::enc(pk, r2);
+            let mut e = [BFieldElement::new(0); 64];
+            e[k] = BFieldElement::new(delta);
+            coset_ntt_noswap_64(&mut e);
+            let mut vals = ct_to_vals(c);
+            for i in 0..64 {
+                vals[64 * which + i] = addp(vals[64 * which + i], e[i].value());
+            }
+            let d = kem::dec(sk, ct_from_vals(&vals)?);
+            st.hit(&format!("tampernoise:{}", if which < 4 { "bg" } else { "bga_m" }));
+            Out::ok(format!("ok:{}", fmt_opt_bytes(&d)))
+                .with_oracle(delta == 0 || d.is_none(), "a ciphertext modified in the noise direction (payload unchanged) was accepted")
+        }
         ("unrelated", [r1, r2, r3]) => {
             let (r1, r2, r3) = (bytes32(r1)?, bytes32(r2)?, bytes32(r3)?);
             let (_, pk) = kem::keygen(r1);
@@ -644,6 +667,14 @@ pub fn gen(rng: &mut Rng, thorough: bool, out: &mut Vec<String>) {
     out.push(format!("lat kem {} {}", fmt_bytes(&[0xffu8; 32]), fmt_bytes(&[0xffu8; 32])));
     for _ in 0..2 * scale {
         out.push(format!("lat unrelated {} {} {}", gen_seed(rng), gen_seed(rng), gen_seed(rng)));
+    }
+    // modifications in the noise direction (the extracted payload stays the same, only the comparison can reject)
+    for _ in 0..(if thorough { 60 } else { 8 }) {
+        let (s1, s2) = (gen_seed(rng), gen_seed(rng));
+        let which = rng.below(5);
+        let k = rng.below(64);
+        let delta = *rng.pick(&[1u64, P - 1, 2, 100, 1 << 10, P - (1 << 10)]);
+        out.push(format!("lat tampernoise {s1} {s2} {which} {k} {delta}"));
     }
     // single-coefficient modifications: thorough = all 320 positions for a few seeds, quick = a spread of positions
     let seeds = if thorough { 3 } else { 1 };
